@@ -197,6 +197,11 @@ func runRadius(o *Out, r *rand.Rand, thorough bool, _ []string) {
 			res := "ok"
 			if kind == "ping" {
 				ping := &portalwire.Ping{EnrSeq: 1, PayloadType: typ, Payload: payload}
+				if r.Intn(8) == 0 {
+					// the peer announces a newer record than the one we hold and then does not serve it (the record request
+					// times out): the radius reported in this very ping counts all the same
+					ping.EnrSeq = 2 + uint64(r.Intn(5))
+				}
 				// the reply is requested under an id that is in no table: the handler's asynchronous processPing then has no
 				// effect, and the ordered processing below is the only writer of the cache
 				var ghost enode.ID
